@@ -75,7 +75,7 @@ def run_harness(h: Harness) -> HarnessResult:
             h.fn(vm)
         except PyRaise as e:
             # an exception of the interpreted program escaping the harness is a harness bug unless checked
-            ctx.fail(f"{h.name}::uncaught-exception", detail=repr(e.exc))
+            ctx.fail(f"{h.name}::uncaught-exception", detail=repr(e.exc) + " " + repr(e.exc.fields.get("args"))[:300])
         # vacuity guard: the hypotheses of this completed path must be satisfiable (unknown counts as satisfiable)
         import z3
         ctx.solver.set("timeout", 1000)
